@@ -466,3 +466,120 @@ PROPS["C11"] = {
         plain_unit("replay", "^TestC11_Replay$", replay=True),
     ],
 }
+
+PROPS["C09"] = {
+    "level": "exploration",
+    "rule": ("(a) TestC09_RingModel: rapid-generated programs over ReplicationBufferQueue (manager nil) with bufSize 128..1024 bytes, "
+             "maxSize = bufSize x {1,2,4,8}: push (payload 0..200 bytes), cursors created fresh / positioned by Head / by Search "
+             "(recent, evicted and never-produced ids), AddPoll before the first Pop as ReplicationServer does, Pop bursts with the "
+             "pollIndex acknowledgement of SendProcess, RemovePoll; final drain of every live cursor. Oracle: a cursor standing on "
+             "seq p is handed exactly seq p+1 with the pushed 64 bytes, payload and aof id, or EOF iff nothing is pending, or the "
+             "documented 'out of buf' error (then it is dead); a fresh cursor starts at the oldest retained record; Search finds a "
+             "record iff it is still linked in the ring and positions exactly on it; the ring never grows beyond maxSize. "
+             "Non-trivial: >=1 record recycled and (ring doubled or a cursor told out-of-buf) and >=5 successful pops. "
+             "(b) TestC09_Cluster (engine N): leader + 1..2 followers as in-process instances on loopback sockets, follower's slaveof = "
+             "harness fault proxy. Case = ring size {128,256,512,4096,65536} x max factor {1,2,4}, 7..50 leader operations through a "
+             "MemWaiterServerProtocol (LOCK/UNLOCK on 1..4 keys x DbId 0/1 x 3 LockIds, expiry 60..3600 s or unlimited, ExpriedFlag "
+             "0x0100 = logged at once, Timeout 0, Count 0..2, Rcount 0..3 (re-entrant), update flag 0x02, SET/INCR/APPEND value "
+             "operations on lock and unlock), log rotations (Aof.RewriteAofFile as the admin command does), follower join (empty or "
+             "emptied directory) / stop / rejoin with its stale directory at drawn positions (before the first record, in the middle, "
+             "after the workload), stall/unstall and drop of the replication connection, intermediate quiescence checks, and per "
+             "follower 0..4 cuts at cumulative byte offsets of the leader->follower replication stream (gap classes 1..63, 64..400, "
+             "400..3000, 3000..20000). Quiescence = all AOF channels of the leader idle, follower position == leader's last aof id, "
+             "replay/append/push pipelines drained (20 s watchdog => VERIF-INCONCLUSIVE, exit 3). Oracle: follower snapshot == leader "
+             "snapshot restricted to persisted holds (keys, LockIds, depth, Count, Rcount, value bytes, deadlines within 1 s); live "
+             "records on one connection have consecutive ids (file switches checked against the closed file's last offset); every "
+             "follower file record exists byte-identically (modulo the REWRITED flag) in the leader's complete log (copies taken at "
+             "every rotation), ids strictly increasing, payloads aligned, and from the follower's start id (first live record after "
+             "its last full transfer) on the records of each append file are exactly the leader's; a directory whose append file "
+             "indices have a hole is a violation. Non-trivial: (>=1 cut in file transfer and >=1 in live streaming) or (leader ring "
+             "overflowed and a follower had to resume / resynchronise). Distinct = FNV-64 of ring sizes, operation list and cut plan. "
+             "Inputs and fault plans replay, schedules do not (TestC09_Replay tries a cluster case up to 25 times)."),
+    "assumptions": [
+        "nothing expires during a case (expiries >= 60 s, cases last < 3 s) and nothing waits (Timeout 0); require-ack is C11's",
+        "tunables read from the package-global Config after Init are identical on all nodes of a cluster; nodes are created sequentially",
+        "ReplicationClient's 5 s reconnect sleep is shortened through its own WakeupRetryConnect every 3 ms; nothing else is touched",
+        "Aof.WaitFlushAofChannel is not a barrier (returns while another channel still has a queued record): the harness repeats it "
+        "until every channel is idle and empty",
+        "ring model: a cursor is registered (AddPoll) before its first Pop and positioned at most once, as ReplicationServer does",
+        "a case in which the harness could not tear down a stopped follower within 5 s is discarded, not judged",
+        "verdict rule: a failing cluster case is executed again on fresh clusters (same case, up to 4 more times); it is a "
+        "failure only if the same key shows again (2 of <= 5 executions; confirmed verdicts are memoised by case fingerprint so "
+        "that rapid's shrinking and final re-run see a function of the input); otherwise it is counted as 'unreproduced anomaly "
+        "(not judged)', written to $VERIF_FAILDIR/C09.anomaly-<pid>-<n>.json with both snapshots and announced by a "
+        "VERIF-ANOMALY line; an inconclusive execution is repeated twice before the shard gives up (exit 3)",
+        "a follower that is connected, whose pipelines are drained, whose position is not the leader's while every leader cursor "
+        "stands at the end of the ring for 3 polls (>3 s) is a violation (C09:live-stream-gap), not a watchdog case",
+        "a divergence of a follower that was built from a compacted log (records of the leader's rewrite.aof in its transfers, "
+        "or a restart from its own directory holding a rewrite.aof), or in a case where a restart of the leader from a copy of "
+        "its files does not recover the leader's state, is attributed to C09:leader-compacted-log-does-not-reproduce-leader-state",
+        "nodes get their logger configured once per process (vQuietLogger's SetLevel per instance deadlocks go-logging's "
+        "recursive read lock when another node of the cluster is logging)",
+        "while listed as known: C09:ring:addpoll-after-recycle-of-seq0-stalls (ring pre-rolled past its first record), "
+        "C09:full-transfer-after-compaction-loses-hold-created-by-update-request (update flag dropped from requests whose LockId is not a holder), "
+        "C09:aborted-full-transfer-resumes-at-bound-skipping-history (cuts deferred past the first record of a full transfer; residual "
+        "leader-side aborts recognised by the proxy signature), C09:file-transfer-concurrent-with-compaction-misses-history (rotation waits "
+        "for transfers, proxy holds new handshakes back), C09:first-record-delivered-twice-when-sync-races-with-empty-ring (workload pauses "
+        "until the handshake of a follower joining an empty leader is over), C09:follower-wedged-by-append-file-index-hole (no rotation of an "
+        "empty file; remaining holes recognised by Aof.FindAofFiles failing), C09:follower-log-duplicated-by-unlocked-flush-during-file-transfer "
+        "(recognised by signature: byte-identical repetitions / orphan or misattributed payloads, no live record forwarded twice), "
+        "C09:reconnect-overtakes-the-old-connection-pipelines (recognised by signature: repetitions with live records forwarded twice, or "
+        ">= 2 full transfers in one incarnation), C09:leader-compacted-log-does-not-reproduce-leader-state (recognised by signature, see above); "
+        "the first-record finding additionally makes the workload wait until the first logged record has reached such a follower",
+    ],
+    "units": [
+        # the driver divides `checks` by `shards`
+        rapid_unit("ring", "^TestC09_RingModel$", quick={"checks": 160000, "shards": 4, "timeout_s": 120},
+                   thorough={"checks": 3200000, "shards": 16, "timeout_s": 900}),
+        rapid_unit("cluster", "^TestC09_Cluster$", quick={"checks": 200, "shards": 8, "timeout_s": 300},
+                   thorough={"checks": 2500, "shards": 16, "timeout_s": 1500}),
+        plain_unit("replay", "^TestC09_Replay$", replay=True, quick={"shards": 1, "timeout_s": 600}),
+    ],
+}
+
+PROPS["C10"] = {
+    "level": "exploration",
+    "rule": ("engine N: leader + one follower (in-process instances, loopback sockets, follower's slaveof = harness proxy that can stall "
+             "the replication stream while client-forwarding connections keep working). TestC10_Forward: case = 0..6 preloaded holds on "
+             "the leader + a script of 3..16 steps: LOCK/UNLOCK requests (1..3 keys, 3 LockIds, DbId 0/1, flags show/update/concurrent-"
+             "check/unlock-first, Count 0..2, Rcount 0..2, expiry 60..600 s logged at once, Timeout 0, SET/INCR/APPEND values) sent over "
+             "one real TCP connection to the FOLLOWER's port as binary 64-byte frames (2/3) or RESP text 'LOCK key TIMEOUT 0 EXPRIED n "
+             "LOCK_ID hex FLAG f COUNT c RCOUNT r' (1/3), direct in-process followerDB.Lock/UnLock calls, and role steps forcing the "
+             "follower into SYNC / FOLLOWER / VOTE / CONFIG (SLock.updateState) between two requests of the same connection; half of "
+             "the cases with the replication stream stalled. The requests that were not refused are then sent to the LEADER of a "
+             "second fresh cluster with the same preload. Oracle: every reply through the follower equals the leader's reply to the "
+             "same request (result, LCount, LRCount, Count, Rcount, LockId, value bytes; text: identical RESP bytes) or is a refusal "
+             "(STATE_ERROR, text '-ERR ...'); a direct call answers STATE_ERROR and leaves the node's snapshot unchanged; with the "
+             "stream stalled the follower's snapshot (holders, depths, deadlines, values) is identical after every step although the "
+             "leader's state does change; afterwards the follower converges to the leader (C09's oracle). "
+             "TestC10_FollowerKeepsExpiredHold: holds with 1..3 s expiry on 1..3 keys (depth 1..3) are replicated, the stream is "
+             "stalled and the follower's clock is advanced 5..700 s through LockDB.checkTimeExpried (hook H1, no wall-clock sweeps): "
+             "the hold must be present while clock - deadline < 300 s; then the leader releases and the follower must follow. "
+             "...Real: the same with the real sweep goroutines, 3.5 s of wall time, leader expires, follower keeps, follower drops when "
+             "the leader's record arrives. Non-trivial (Forward): >=1 request answered by forwarding and >=1 refused with STATE_ERROR "
+             "(over TCP or direct); (expiry): hold observed past its deadline. Distinct = FNV-64 of the script / case."),
+    "assumptions": [
+        "text protocol scripts use DbId 0 and no value operations; a text refusal is a RESP error line ('-ERR Leader Server Error')",
+        "a request in role VOTE/CONFIG may be refused or, on a connection that already has a forwarding client, forwarded - both allowed",
+        "forwarded requests without an INIT frame (no client id): the follower's pushed state frames are not part of the comparison",
+        "the driver passes only C10's keys to a C10 run, so C09's exclusions are off there: a case whose cluster preparation or "
+        "final convergence check fails with a C09 key is noted (VERIF-NOTE, class 'case ran into a C09 finding'), not judged by C10; "
+        "the workload of a C10 case starts only after the follower's handshake is over (C10 does not explore joins racing with the "
+        "leader's first records)",
+        "verdict rule as in C09: a failing script is executed again on fresh clusters up to 4 more times and is a failure only if "
+        "the same key shows again; otherwise VERIF-ANOMALY + $VERIF_FAILDIR/C10.anomaly-<pid>-<n>.json, class 'unreproduced anomaly "
+        "(not judged)'; inconclusive executions are repeated twice before the shard exits 3",
+        "while listed as known: C10:concurrent-check-answered-locally-by-non-leader (flag 0x08 not generated for direct calls nor with a "
+        "stalled stream), C10:follower-keeps-replicated-hold-beyond-300s (clock beyond deadline+300 s only observed, not judged); "
+        "C10:non-leader-unlock-of-unknown-key-answers-UNLOCK_ERROR is repaired in /repo (793e756): list it as fixed, its exclusion is off",
+    ],
+    "units": [
+        # the driver divides `checks` by `shards`
+        rapid_unit("forward", "^TestC10_Forward$", quick={"checks": 200, "shards": 8, "timeout_s": 300},
+                   thorough={"checks": 4000, "shards": 16, "timeout_s": 1500}),
+        rapid_unit("expiry", "^TestC10_FollowerKeepsExpiredHold$", quick={"checks": 30, "shards": 2, "timeout_s": 240},
+                   thorough={"checks": 600, "shards": 4, "timeout_s": 900}),
+        plain_unit("expiry-real", "^TestC10_FollowerKeepsExpiredHoldReal$", quick={"shards": 1, "timeout_s": 120}),
+        plain_unit("replay", "^TestC10_Replay$", replay=True),
+    ],
+}
